@@ -64,6 +64,8 @@ def f_pool(tier):
         ("G", 2, (("u", "real", ()), ("v", "real", (2,)))),
         # a Gaussian inside a lazy sum whose input order differs from the Gaussian's own
         ("B", "add", ("B", "add", ("B", "mul", N(2.0), V("w2", "real")), V("u", "real")), ("G", 3, (("u", "real", ()), ("v", "real", ()), ("w2", "real", ())))),
+        ("D", "b5", N(2, 5), N(0.5)),  # a point mass over a bounded-integer name (sliced / indexed / renamed)
+        ("D", "b5", T("i", dtype=5, contents=[4, 2]), T("i", lid=77)),
         ("D", "u", N(2.5), T("i", lid=75)),
         ("D", "u", T("i", lid=76), N(0.5)),
         T(("i", "k", "h"), lid=73, sizes={"h": 2}),  # three inputs of one size: chains a->b, b->c with c kept
